@@ -1317,8 +1317,48 @@ class Engine:
     def ex_GeneratorExp(self, node, st):
         yield (OK, st, Opaque('genexp', (node, dict(st.locals))))
 
+    def _comp_concrete(self, node, st, kind):
+        """comprehensions over a CONCRETE iterable whose elements evaluate without forking: unrolled"""
+        if len(node.generators) != 1 or node.generators[0].ifs:
+            raise Undecided('comprehension with conditions / several generators')
+        comp = node.generators[0]
+        res = list(self.ev(comp.iter, st))
+        if len(res) != 1 or res[0][0] != OK:
+            raise Undecided('comprehension over a forking iterable')
+        it = res[0][2]
+        seq = self.as_iteration(it, st) if not isinstance(it, dict) else ('concrete', list(it))
+        if seq[0] != 'concrete':
+            raise Undecided('comprehension over a symbolic sequence (needs a contract-level summary)')
+        out = []
+        s = st
+        for v in seq[1]:
+            s1 = s.fork()
+            r1 = self.assign(comp.target, v, s1)
+            if len(r1) != 1 or r1[0][1] is not None:
+                raise Undecided('comprehension target')
+            elts = [node.key, node.value] if kind == 'dict' else [node.elt]
+            r2 = list(self.evs(elts, r1[0][0]))
+            if len(r2) != 1 or r2[0][0] != OK:
+                raise Undecided('comprehension element forks or raises')
+            out.append(tuple(r2[0][2]) if kind == 'dict' else r2[0][2][0])
+        if kind == 'set':
+            return set(out)
+        if kind == 'dict':
+            return dict(out)
+        return out
+
     def ex_ListComp(self, node, st):
-        raise Undecided('list comprehension (needs a contract-level summary)')
+        vals = self._comp_concrete(node, st, 'list')
+        if all(_is_concrete(v) for v in vals):
+            yield (OK, st, vals)
+        else:
+            raise Undecided('list comprehension with symbolic elements')
+
+    def ex_SetComp(self, node, st):
+        yield (OK, st, self._comp_concrete(node, st, 'set'))
+
+    def ex_DictComp(self, node, st):
+        yield (OK, st, self._comp_concrete(node, st, 'dict'))
 
     def ex_Starred(self, node, st):
         raise Undecided('starred expression')
@@ -1425,6 +1465,10 @@ class Engine:
             h = self.method_handlers.get((type(f.__self__).__name__, f.__name__))
             if h is not None:
                 yield from h(self, st, f.__self__, args, kwargs)
+                return
+            if isinstance(f.__self__, str) and f.__name__ in ('join', 'format', 'ljust', 'rjust') and not all(_is_concrete(a) for a in args):
+                self.note_drop('message formatting (str.join / str.format over non-concrete values): an opaque string')
+                yield (OK, st, Opaque('str'))
                 return
             if isinstance(f.__self__, (int, str, bytes, tuple, frozenset)) and all(_is_concrete(a) for a in args) and not kwargs:
                 try:
